@@ -25,11 +25,14 @@ func (in *flInst) Close() { in.releaseAll() }
 func (in *flInst) writeOver(over [][2]string) error {
 	for _, p := range over {
 		var err error
+		kb, vb := spare(decKey(p[0])), spare(decVal(p[1]))
 		if p[1] == "x" {
-			err = in.fl.Delete(decKey(p[0]))
+			err = in.fl.Delete(kb)
 		} else {
-			err = in.fl.Put(decKey(p[0]), decVal(p[1]))
+			err = in.fl.Put(kb, vb)
 		}
+		scribble(kb)
+		scribble(vb)
 		if err != nil {
 			return err
 		}
